@@ -53,7 +53,7 @@ def one(d, tier, tests, demo):
             rc1, _ = sh([PY, os.path.basename(demos[0])], cwd=scratch, env=env)
             res["demo_patched_rc"] = rc1
         if tests:
-            rc, out = sh([PY, "-m", "pytest", "-q", "-x", "-p", "no:cacheprovider", "--timeout=900"], cwd=scratch, env=env)
+            rc, out = sh([PY, "-m", "pytest", "-q", "-x", "-p", "no:cacheprovider", "--timeout=60"], cwd=scratch, env=env)
             res["tests"] = (out.strip().splitlines() or [""])[-1]
             res["tests_pass"] = rc == 0
         outdir = scratch + "_out"
